@@ -204,6 +204,15 @@ def run(repo, rep):
                 rep.fail('C03.c', 'engine:' + i.construct, i.where, 'line indentation is no longer the sum of the enclosing nest amounts: ' + i.detail)
     rep.floor('C03.c', n, 12)
 
+    # ---------------------------------------------------------------- C03.d one set of settings for every variant of a value
+    # the flat and the broken rendering of a value are produced under contexts that differ at most in what the context model
+    # verifies (depth, strategy, user values): nobody rebuilds a context by hand
+    from . import ctxmodel
+    nd = ctxmodel.construction_sites(repo, rep, 'C03.d', 'a variant rendered under a rebuilt context can differ in content (key order, truncation) from '
+                                     'the variant chosen at another width')
+    nd += ctxmodel.report(repo, rep, 'C03.d', lambda k: ':keeps:' in k, 'a derived context must keep every other setting')
+    rep.floor('C03.d', nd, 10)
+
 
 def _fcl(fc):
     fl = S.content_sig(D.linearise(fc.flat, 'flat', lambda g: 'flat'))
